@@ -9,7 +9,7 @@ from common import np, dnp, run_model
 
 RULE = ("fit on noise-free data generated from every shipped model (mono/bi-exponential, T1 recovery, T2 decay, build-up, "
         "Gaussian, Lorentzian, Voigt) with parameter vectors differing per trace, 1-3-D objects with the fitted dimension in "
-        "every position, fit_points given or not: (a) placement of the per-trace parameters — correspondence of fit()['popt'] "
+        "every position, the fitted axis ascending, descending or unordered, fit_points given or not: (a) placement of the per-trace parameters — correspondence of fit()['popt'] "
         "with the Lean model fed the solver's own per-trace outputs; (b) on the real code: parameters recovered per label, "
         "fitted curve = model(popt) on the requested grid, dims/coords of popt; (c) lineshapes: Lean Float evaluation of the "
         "Gaussian/Lorentzian formulas vs dnplab.math.lineshape, numerical area = integral argument, symmetry, Voigt limits, "
@@ -105,9 +105,12 @@ def recovery_oracle(tier, seed):
     """noise-free data from every model, per-trace parameters, dim in every position"""
     rng = random.Random(seed * 7919 + 118)
     fails, n_eval = [], 0
-    for name, f, x, plist, p0 in models():
-        for pos in (0, 1):
-            for fit_points in (None, 55, len(x)):
+    for name, f, x0, plist, p0 in models():
+      # the fitted axis as acquired: ascending, descending (a long-to-short delay list), or in no order at all
+      for order in ("asc", "desc", "shuffled"):
+        x = x0 if order == "asc" else (x0[::-1].copy() if order == "desc" else np.random.RandomState(seed + 5).permutation(x0))
+        for pos in ((0, 1) if order == "asc" else (1,)):
+            for fit_points in ((None, 55, len(x)) if order == "asc" else (None, 55)):
                 m = len(plist)
                 mat = np.stack([f(x, *p) for p in plist], axis=1)        # (n, m)
                 vals = mat if pos == 0 else mat.T
@@ -129,7 +132,7 @@ def recovery_oracle(tier, seed):
                     fails.append({"key": key, "clause": key, "ops": [{"model": name, "dims": list(po.dims), "shape": list(po.shape)}]}); continue
                 want = np.array(plist).T
                 if not np.allclose(po.values, want, rtol=1e-4, atol=1e-6):
-                    key = "C18:parameters-not-recovered:%s:pos%d" % (name, pos)
+                    key = "C18:parameters-not-recovered:%s:pos%d%s" % (name, pos, "" if order == "asc" else ":" + order)
                     fails.append({"key": key, "clause": key, "ops": [{"model": name, "got": po.values.tolist(), "want": want.tolist()}]})
                 fo = out["fit"]
                 grid = np.asarray(fo.coords["t"])
@@ -143,7 +146,7 @@ def recovery_oracle(tier, seed):
                     if not np.allclose(curve, f(grid, *po.values[:, j]), rtol=1e-9, atol=1e-12):
                         ok = False
                 if not ok:
-                    key = "C18:fit-curve:%s:pos%d" % (name, pos)
+                    key = "C18:fit-curve:%s:pos%d%s" % (name, pos, "" if order == "asc" else ":" + order)
                     fails.append({"key": key, "clause": key, "ops": [{"model": name, "dim_pos": pos, "fit_points": fit_points}]})
     f3, n3 = fit_placement_3d("C18")
     fails += f3; n_eval += n3
@@ -235,7 +238,7 @@ def grid_correspondence(tier, seed):
     from common import rstr
     rng = random.Random(seed * 7919 + 218)
     lin = lambda x, a, b: a * x + b
-    ops, got = [], []
+    ops, got, bad = [], [], []
     axes = [np.linspace(0.0, 3.0, 7), np.geomspace(0.01, 5.0, 9), np.linspace(4.0, -2.0, 6), np.array([0.5, 0.1, 2.0, 1.0, 3.5])]
     for x in axes:
         for fp in (None, 2, 5, len(x), 17):
@@ -245,8 +248,9 @@ def grid_correspondence(tier, seed):
                 out = dnp.fit(lin, d, "t", (1.0, 0.0), fit_points=fp)
             ops.append(dict({"op": "fitgrid", "coord": [rstr(v) for v in x]}, **({} if fp is None else {"fit_points": fp})))
             got.append(np.asarray(out["fit"].coords["t"], dtype=float))
+            if not np.allclose(np.asarray(out["popt"].values).reshape(-1), [2.0, 1.0], rtol=1e-7, atol=1e-9):
+                bad.append({"diffs": ["straight-line-not-recovered"], "ops": [ops[-1]], "stream": -1, "explained_by_known": False})
     outs, _ = run_model(ops)
-    bad = []
     for op, o, g in zip(ops, outs, got):
         if o.get("outcome") != "ok":
             bad.append({"diffs": [o.get("outcome")], "ops": [op], "stream": -1, "explained_by_known": False}); continue
